@@ -351,6 +351,26 @@ def w_rotations(ctx, rng, i):
         from props.c05 import unit_quaternion
         R.init_3d_from_quaternion(unit_quaternion(rng))
         str(rr)        # the textual description goes through the axis/angle report too
+        # rotations about special axes (space diagonals, face diagonals, the coordinate axes): Rodrigues' formula
+        ax = np.array([[1, 1, 1], [-1, -1, -1], [1, -1, 1], [1, 1, 0], [0, 1, 1], [1, 0, 0], [0, 0, -1], [1, 1, -1]][rng.integers(0, 8)], dtype=float)
+        ax /= np.linalg.norm(ax)
+        ang = float(rng.uniform(-np.pi, np.pi)) if rng.random() < 0.7 else float(rng.choice([2 * np.pi / 3, -2 * np.pi / 3, np.pi / 2, np.pi / 3]))
+        Kx = np.array([[0, -ax[2], ax[1]], [ax[2], 0, -ax[0]], [-ax[1], ax[0], 0]])
+        Rm = np.eye(3) + np.sin(ang) * Kx + (1 - np.cos(ang)) * (Kx @ Kx)
+        R(Rm).axis_and_angle_of_rotation()
+        R(np.array([[0, 0, 1], [1, 0, 0], [0, 1, 0]], dtype=float) if rng.random() < 0.5 else np.array([[0, 1, 0], [0, 0, 1], [1, 0, 0]], dtype=float)).axis_and_angle_of_rotation()
+        # quaternion parameters round-trip through any template rotation - also one written with integer entries
+        templates = [R(np.eye(3, dtype=int)), R(np.array([[0, -1, 0], [1, 0, 0], [0, 0, 1]])), R(np.array([[0, 0, 1], [1, 0, 0], [0, 1, 0]])), rr, R.init_identity(3)]
+        tpl = templates[rng.integers(0, len(templates))]
+        qq = unit_quaternion(rng)
+        ctx.tap("quaternion_through_template", "calls"); ctx.tap("quaternion_through_template", "checked")
+        try:
+            got = tpl.from_vector(qq)
+            back = np.asarray(got.as_vector(), dtype=float)
+            if _amax(np.asarray(got.rotation_matrix, dtype=float) - quat_to_matrix(qq)) > 1e-9 or _amax(back - qq) > 1e-8:
+                ctx.fail("quaternion_does_not_round_trip", cls="Rotation", mech="from_vector_on_a_template_with_%s_matrix" % np.asarray(tpl.h_matrix).dtype.kind, given=qq, got=back)
+        except Exception as e:
+            ctx.fail("quaternion_constructor_raised", cls="Rotation", mech="from_vector:" + type(e).__name__)
     else:
         rr = R(gen.rotation_matrix(rng, 2))
         rr.axis_and_angle_of_rotation()
